@@ -479,7 +479,7 @@ func (c06Engine) Exec(c *Case, job *Job) *Result {
 		e := c.Reps[job.Rep-1].Env
 		e.Fresh = false
 		text, perm := observe(c, e, c.Seed+uint64(job.Rep))
-		res.Msg = text
+		res.Blob = []byte(text) // not as a JSON string: invalid UTF-8 in an error text would come back as U+FFFD
 		res.Sig = strings.Join(perm, ",")
 		return res
 	}
@@ -510,7 +510,7 @@ func (c06Engine) Exec(c *Case, job *Job) *Result {
 				res.Msg = err.Error()
 				return res
 			}
-			text = r2.Msg
+			text = string(r2.Blob)
 			if r2.Sig != "" {
 				perm = strings.Split(r2.Sig, ",")
 			}
